@@ -35,6 +35,7 @@ type Profile struct {
 	RunTo       bool
 	Zip         bool
 	PadTo       bool
+	EmptyOuts   bool
 	Taggers     bool
 	Joins       bool
 }
@@ -88,6 +89,7 @@ func (g *gen) swarm(p Profile) *Profile {
 	q.TwoSources = g.flag(p.TwoSources)
 	q.Zip = g.flag(p.Zip)
 	q.PadTo = g.flag(p.PadTo)
+	q.EmptyOuts = g.flag(p.EmptyOuts)
 	q.Taggers = g.flag(p.Taggers)
 	q.Joins = g.flag(p.Joins)
 	return &q
@@ -374,6 +376,9 @@ func (g *gen) addProc(j int, sinkless *bool) {
 	}
 	if p.PadTo && g.n(3) == 1 {
 		node.PadTo = 100 + 50*g.n(4)
+	}
+	if p.EmptyOuts && g.n(6) == 1 {
+		node.PadTo = -1 // every output of this process is a (complete) empty file
 	}
 	if p.Recorders && g.n(2) == 1 {
 		node.Rec = true
